@@ -151,6 +151,21 @@ theorem extractLoop_charged (adv : Adv α) (doc : Doc α) (ops : List (RawOp α)
     · exact h1
     · exact h1.trans (ih _)
 
+omit [Lean.Grind.CommRing α] [DecidableEq α] [LT α] [DecidableLT α] in
+/-- tagging fragments with their strings does not change the fragments -/
+@[simp] theorem tagShows_sh (sids : List Nat) (shows : List (Show α)) :
+    (tagShows sids shows).map (·.sh) = shows := by
+  induction shows generalizing sids with
+  | nil => cases sids <;> rfl
+  | cons sh rest ih => cases sids <;> simp [tagShows, ih]
+
+omit [Lean.Grind.CommRing α] [DecidableEq α] [LT α] [DecidableLT α] in
+@[simp] theorem tagShows_length (sids : List Nat) (shows : List (Show α)) :
+    (tagShows sids shows).length = shows.length := by
+  induction shows generalizing sids with
+  | nil => cases sids <;> rfl
+  | cons sh rest ih => cases sids <;> simp [tagShows, ih]
+
 /-! ### what a call leaves untouched: nesting depth and resources -/
 
 omit [DecidableEq α] [LT α] [DecidableLT α] in
@@ -169,7 +184,7 @@ theorem stepBasic_xdepth (adv : Adv α) (op : Op α) (s : State α) :
     simp [stepBasic, State.save, State.transform, State.beginText, State.mapText, State.setFont,
       State.setTextMatrix, State.translateText, State.translateTextSetLeading, State.setLeading,
       State.nextLine, State.setCharSpacing, State.setWordSpacing, State.setHorizontalScaling,
-      showText]
+      State.setTextRise, State.advanceText, showText, showTextArray_frame]
   cases s with | mk c st d =>
   cases st <;> simp [State.restore]
 
